@@ -40,6 +40,10 @@ CLAIMED["C08"] = dict(technique="differential testing against the unrestricted r
 CLAIMED["C18"] = dict(technique="rapid-generated configurations (flag x environment grid with boolean/list spellings and generated environment strings) run through the real binary in fresh processes on a probe module; expected reports from a restated resolution + parsing + skip + matching reference",
     text="Each case draws, per option, flag absent/empty/value (bool: absent/bare/=spelling) and env unset/empty/value/generated string, runs the real gogreement binary (a sample through go vet -vettool) in a fresh process on a probe module with planted violations in a test file, a testdata directory, a gen_ file, a vendorx directory and one per code, and compares the reported planted-violation ids with those implied by the reference resolution flag > env-if-set > default; exit status must be 0 for every environment value.",
     note="reference resolution/parsing (about 40 lines) restated from the documentation; GOGREEMENT_ENV_ONLY is never set; flag values are limited to spellings Go's flag package accepts", ref="DESIGN.md section 3, C18")
+
+CLAIMED["C14"] = dict(technique="rapid-generated programs x configurations (scan-tests, exclude-paths tokens drawn from the program's own file and directory names): location predicate, comment-stripping metamorphic relation, and model exactness under the configuration",
+    text="For generated programs with regular and test files and random scan-tests / exclude-paths settings: no diagnostic may lie in a file the reference skip predicate excludes (never TONL in a test file); stripping every comment from the excluded files must leave all other files' diagnostics unchanged; and the IMM/CTOR/TONL/PKGO diagnostics must equal the model expectation in which excluded files contribute neither annotations nor sites.",
+    note="reference skip predicate restated (suffix _test.go unless scan-tests; absolute file name contains a token); external test packages and excluded directories are covered by C18's probe, not generated here", ref="DESIGN.md section 3, C14")
 ALL = ["C%02d" % i for i in range(1, 20)]
 NA_REASON = {}
 def main():
